@@ -805,11 +805,62 @@ def _has_empty_branch(code):
     return False
 
 
+def _exprs_of(code, out):
+    for s_ in code or []:
+        if s_[0] == 'asg':
+            out.append(s_[2])
+        elif s_[0] == 'if':
+            for c, b in s_[1]:
+                _cond_exprs(c, out)
+                _exprs_of(b, out)
+            if s_[2] is not None:
+                _exprs_of(s_[2], out)
+    return out
+
+
+def _cond_exprs(c, out):
+    if c[0] == 'rel':
+        out.append(c[2])
+        out.append(c[3])
+    else:
+        for x in c[1:]:
+            _cond_exprs(x, out)
+
+
+def _reads_cancelled_variable(code):
+    """some expression of the program mentions a user variable its value cannot depend on (X - X, -X + (X + 1)):
+    pharmpy's parsed statement does not contain that variable although the kept text does"""
+    from ..gen import gen_nm as G
+
+    grid = [-2.3, -0.7, 0.4, 1.3, 2.9, 4.2]
+    for e in _exprs_of(code, []):
+        names = sorted(v for v in G.expr_reads(e) if v in G.USERVARS)
+        for nm in names:
+            constant = True
+            for k in range(3):
+                vals = set()
+                for g in grid:
+                    data = {n: grid[(2 * j + 3 * k) % len(grid)] for j, n in enumerate(G.USERVARS + G.COVS + ['TIME', 'F'])}
+                    data[nm] = g
+                    env = R.Env(theta=[grid[(i + k) % 6] for i in range(40)], eta=[grid[(i + 2 * k) % 6] / 10 for i in range(40)], eps=[0.1] * 10, data=data)
+                    try:
+                        vals.add(round(R.eval_expr(G.strip(e), env), 10))
+                    except Exception:
+                        vals.add(('err', g))
+                if len(vals) > 1:
+                    constant = False
+                    break
+            if constant:
+                return True
+    return False
+
+
 def _pred_generated_empty_branch(spec):
     from . import c01
 
     try:
-        return _has_empty_branch(c01.build(spec['prog']).pred)
+        code = c01.build(spec['prog']).pred
+        return _has_empty_branch(code) or _reads_cancelled_variable(code)
     except Exception:
         return False
 
